@@ -48,6 +48,12 @@ CORPUS_Q = ["1HMH_1_E.cif", "1DFU_1_M-N.cif", "4WTI_1_T-P.cif", "1E7K_1_C.cif", 
 CORPUS_T = CORPUS_Q + ["1JJP.cif", "184D.cif", "8btk_B7.cif", "4qln.cif", "488d.pdb", "1a9n.cif", "6g90_1.cif"]
 
 
+ENTITY_POLY_FILES = ["1ehz-assembly-1.cif", "1E7K_1_C.cif", "1A1T_1_B.cif", "1HMH_1_E.cif"]
+# parent base of residue names (standard names and the modified nucleotides of the corpus whose glycosidic bond is the parent's); others: unknown
+PARENT = {"A": "A", "C": "C", "G": "G", "U": "U", "DA": "A", "DC": "C", "DG": "G", "DT": "T", "DU": "U", "2MG": "G", "M2G": "G", "OMG": "G", "7MG": "G", "YYG": "G", "1MA": "A",
+          "H2U": "U", "5MU": "U", "OMC": "C", "5MC": "C", "OMU": "U", "4SU": "U", "A23": "A", "GTP": "G", "5BU": "U"}
+
+
 def families(tier):
     q = tier == "quick"
     return [
@@ -58,6 +64,9 @@ def families(tier):
         # from every 4th remaining residue (C4 / C2, N9 / N1, C1', O4' in turn): a torsion whose defining atoms are not all there, or whose residues are not
         # covalently linked, has no value
         ("corpus-thinned", lambda: (dict(file=f, thin=k) for f in (CORPUS_Q if q else CORPUS_T) for k in (0, 3)), 1),
+        # single-chain files written with an _entity_poly category: both sequence items, or only pdbx_seq_one_letter_code (modified residues in parentheses,
+        # no canonical item) - where the one-letter names come from must not change which atoms define chi
+        ("corpus-entity-poly", lambda: (dict(file=f, entity_poly=k) for f in ENTITY_POLY_FILES for k in ("both", "noncan-only")), 1),
         ("corpus-icodes", lambda: (dict(file=f, relabel=k) for f in (CORPUS_Q[:4] if q else CORPUS_T) for k in ("icode-pairs", "icode-triples")), 1),
     ]
 
@@ -198,7 +207,22 @@ def run_corpus(case):
 
         t = apply_abstract([dict(a, model=1) for a in t], ("relabel", case["relabel"], None))
         name = name + "+" + case["relabel"]
-    text = enumio.emit_cif([dict(a, model=1) for a in t], label_differs=bool(case.get("relabel")))
+    extra = None
+    if case.get("entity_poly"):
+        # nucleotides of the first chain only (one entity, label_seq_id 1..n in file order)
+        first = t[0]["chain"]
+        res = [(ident, atoms) for ident, atoms in corpus.residues([a for a in t if a["chain"] == first]) if any(a["name"] == "C1'" for a in atoms)]
+        t = [a for _, atoms in res for a in atoms]
+        names = [ident[4] for ident, _ in res]
+        can = "".join(PARENT.get(nm, "N") for nm in names)
+        noncan = "".join(nm if len(nm) == 1 else "(%s)" % nm for nm in names)
+        V = lambda x: ("v", x)
+        if case["entity_poly"] == "both":
+            extra = {"entity_poly": (["entity_id", "type", "pdbx_seq_one_letter_code", "pdbx_seq_one_letter_code_can"], [(V("1"), V("polyribonucleotide"), V(noncan), V(can))])}
+        else:
+            extra = {"entity_poly": (["entity_id", "type", "pdbx_seq_one_letter_code"], [(V("1"), V("polyribonucleotide"), V(noncan))])}
+        name = name + "+entity_poly:" + case["entity_poly"]
+    text = enumio.emit_cif([dict(a, model=1) for a in t], label_differs=bool(case.get("relabel") or case.get("entity_poly")), extra_categories=extra)
     path = os.path.join(scratch_dir(), "c18.cif")
     with open(path, "w") as f:
         f.write(text)
@@ -245,7 +269,11 @@ def run_corpus(case):
 
         for letter in (r.one_letter_name, "N", "n", "?"):
             rr = r if letter == r.one_letter_name else Residue3D(r.label, r.auth, r.model, letter, r.atoms)
-            if letter.upper() in "AG":
+            true = PARENT.get(r.name) if letter == r.one_letter_name else None
+            if true is not None:
+                # a residue of known chemistry: chi is the torsion of ITS glycosidic bond, whatever one-letter name the reader arrived at
+                base = ("N9", "C4") if true in "AG" else ("N1", "C2")
+            elif letter.upper() in "AG":
                 base = ("N9", "C4")
             elif letter.upper() in "CUT":
                 base = ("N1", "C2")
